@@ -46,10 +46,12 @@ class Sym(object):
         return id(self)
 
 class SInt(Sym):
-    __slots__ = ('t', 'bits')
-    def __init__(self, t, bits=None):
+    __slots__ = ('t', 'bits', 'tz', 'fld')
+    def __init__(self, t, bits=None, tz=0):
+        self.fld = None         # bit-field view (pyvc.bitfield), or None
         self.t = t
         self.bits = bits        # superset of possibly-set bits if known non-negative, else None
+        self.tz = tz            # number of low bits known to be zero (any sign)
     def __repr__(self):
         return "SInt(%s)" % (self.t,)
 
@@ -79,13 +81,25 @@ class SOpaque(Sym):
 def is_sym(v):
     return isinstance(v, Sym)
 
-def mk_int(t, bits=None):
+def mk_int(t, bits=None, tz=0):
     """Wrap a z3 int term, folding constants back to Python ints."""
     if isinstance(t, int):
         return t
     if z3.is_int_value(t):
         return t.as_long()
-    return SInt(t, bits)
+    return SInt(t, bits, tz)
+
+def tz_of(v):
+    """number of low bits known to be zero"""
+    if isinstance(v, bool):
+        return 0 if v else 1 << 20
+    if isinstance(v, int):
+        if v == 0:
+            return 1 << 20
+        return (v & -v).bit_length() - 1
+    if isinstance(v, SInt):
+        return v.tz
+    return 0
 
 def mk_bool(t):
     if isinstance(t, bool):
@@ -245,6 +259,10 @@ def int_bitop(opname, x, y):
                 return mk_int(_bv_binop('&', tx, ty, w), bx & by)
         raise Unsupported("& on unbounded symbolic operands")
     if opname in ('|', '^'):
+        # one side has its low k bits clear (any sign), the other fits in k bits: no overlap
+        for (u, bu, v, bv) in ((x, bx, y, by), (y, by, x, bx)):
+            if bv is not None and bv < (1 << min(tz_of(u), 4096)):
+                return mk_int(tx + ty, (bx | by) if (bx is not None and by is not None) else None, min(tz_of(x), tz_of(y)))
         if bx is not None and by is not None:
             if bx & by == 0:
                 return mk_int(tx + ty, bx | by)   # disjoint bits: no carries
@@ -473,6 +491,21 @@ class PathCtx(object):
             return False
         return self._check(z3.Not(t)) == z3.unsat
 
+    def unique_value(self, t):
+        """the integer t must equal under the path condition, or None"""
+        if isinstance(t, int):
+            return t
+        if z3.is_int_value(t):
+            return t.as_long()
+        if self._check() != z3.sat:
+            return None
+        v = self.solver.model().eval(t, model_completion=True)
+        if not z3.is_int_value(v):
+            return None
+        if self._check(t != v) == z3.unsat:
+            return v.as_long()
+        return None
+
     def decide(self, t, label=None):
         """branch on a boolean: returns the Python bool taken on this path"""
         if isinstance(t, bool):
@@ -638,6 +671,8 @@ def explore(program, max_paths=4000, **ctxargs):
             res.budget.append("more than %d paths" % max_paths)
             break
         res.paths += 1
+        from . import bitfield as _bf
+        _bf.REG.clear()
         ctx = PathCtx(prefix, **ctxargs)
         try:
             label = program(ctx)
